@@ -110,7 +110,10 @@ pub fn panic_msg(e: Box<dyn std::any::Any + Send>) -> String {
     }
 }
 
-pub fn run_case<'a, I: InK<'a>, C: Cfg<'a, I>>(p: &BP<'a, I, C>, mk: &dyn Fn() -> I, lazy: bool) -> RawObs {
+pub fn run_case<'a, I: InK<'a>, C: Cfg<'a, I>, P>(p: &P, mk: &dyn Fn() -> I, lazy: bool) -> RawObs
+where
+    P: Parser<'a, I, Val, Ex<'a, I, C>> + Clone,
+{
     let r = catch_unwind(AssertUnwindSafe(|| {
         let mut st = <C::St as Default>::default();
         let res = p.parse_with_state(mk(), &mut st);
@@ -466,6 +469,8 @@ pub struct Job<'j> {
     pub pair_mode: Option<PairMode>,
     /// build every combinator through its own `Clone` impl (interp::CLONE_MODE)
     pub clone_mode: bool,
+    /// statically typed parsers (generated code), parallel to `grammars`; &str / Rich only
+    pub static_cases: Option<&'j [crate::stat::CaseFn]>,
 }
 
 #[derive(Clone, Copy, Debug, PartialEq, Eq)]
@@ -577,22 +582,28 @@ fn observe<'a, I: InK<'a>, C: Cfg<'a, I>>(
 ) -> (RawObs, u32, u32) {
     BUF.with(|b| b.set(buf(ii)));
     PULL_BAD.with(|b| b.set(false));
-    let mut obs = run_case::<I, C>(p, &|| mk(ii), lazy);
+    let mut obs = run_case::<I, C, BP<'a, I, C>>(p, &|| mk(ii), lazy);
     if PULL_BAD.with(|b| b.get()) {
         obs.pull_bad = true;
     }
     let nf = |s: (usize, usize), off: bool| norm(ii, s, off);
+    let (bad_sp, bad_sl) = normalise_obs(&mut obs, &nf, unrender);
+    (obs, bad_sp, bad_sl)
+}
+
+/// rewrite raw spans / offsets to token indices and canonicalise expected lists
+pub fn normalise_obs(obs: &mut RawObs, nf: Norm, unrender: &dyn Fn(char) -> char) -> (u32, u32) {
     let mut bad = (0, 0);
     if let Some(v) = obs.out.as_mut() {
-        bad = norm_val(v, &nf, unrender);
+        bad = norm_val(v, nf, unrender);
     }
     if let Some((Some(v), _)) = obs.lazy.as_mut() {
-        let b2 = norm_val(v, &nf, unrender);
+        let b2 = norm_val(v, nf, unrender);
         bad = (bad.0 + b2.0, bad.1 + b2.1);
     }
     let mut bad_e = 0;
     for e in obs.errs.iter_mut().chain(obs.chk_errs.iter_mut()) {
-        bad_e += norm_err(e, &nf);
+        bad_e += norm_err(e, nf);
         e.found = e.found.map(unrender);
         for x in e.exp.iter_mut() {
             if let OExp::Tok(c) = x {
@@ -603,7 +614,7 @@ fn observe<'a, I: InK<'a>, C: Cfg<'a, I>>(
         e.exp.sort_by_key(|x| format!("{x:?}"));
         e.exp.dedup();
     }
-    (obs, bad.0 + bad_e, bad.1)
+    (bad.0 + bad_e, bad.1)
 }
 
 fn record(acc: &mut Acc, job: &Job, hit: u32, g: &G, toks: &[Tok], detail: String, explained_by: Vec<&'static str>) {
@@ -666,74 +677,80 @@ pub fn run_generic<'a, I: InK<'a>, C: Cfg<'a, I>>(
                 continue;
             }
             let (obs, bad_sp, bad_sl) = observe::<I, C>(&p, ii, job.lazy, mk, buf, norm, unrender);
-            let mut mask = compare(kind, &obs, &m, toks.len());
-            if bad_sp > 0 {
-                mask |= MAL;
-            }
-            if bad_sl > 0 {
-                mask |= ZCP;
-            }
-            let mut lazy_model = None;
-            if let Some((lo, _)) = &obs.lazy {
-                let lm = sem::parse_lazy(g, toks, Sw::NONE, job.probes).map(|(_, v)| v);
-                if *lo != lm {
-                    mask |= LAZ;
-                }
-                lazy_model = Some(lm);
-            }
-            if obs.panic.is_some() {
-                acc.panics += 1;
-            }
-            if m.output.is_some() {
-                acc.accepted += 1;
-                if !m.emitted.is_empty() {
-                    acc.with_emissions += 1;
-                }
-            } else {
-                acc.rejected += 1;
-            }
-            if acc.distinct_outcomes.len() < 100_000 {
-                acc.distinct_outcomes.insert(hash_outcome(&m));
-            }
-            if acc.samples.len() < 6 && (acc.cases % 9973 == 1 || (acc.samples.len() < 2 && m.output.is_some() && !toks.is_empty())) {
-                acc.samples.push(format!(
-                    "{} on {:?} [{}/{}] -> model {} ; impl agrees={}",
-                    g,
-                    toks.iter().collect::<String>(),
-                    job.kind_name,
-                    job.cfg_name,
-                    match &m.output {
-                        Some(v) => format!("Ok({:?}) emitted={}", v, m.emitted.len()),
-                        None => format!("Err({:?})", m.primary.as_ref().map(|a| (a.span, a.found, &a.exp, &a.custom))),
-                    },
-                    mask == 0
-                ));
-            }
-            let hit = mask & job.alarm & content_mask;
-            if hit != 0 {
-                let explained_by = classify(g, toks, job.probes, job.known, kind, &obs, job.alarm & !LAZ, content_mask);
-                let detail = format!(
-                    "categories={:?}\n  impl : out={:?} errs={:?} check=({}, {:?}) state={:?} panic={:?} contract={:?} lazy={:?}\n  model: out={:?} emitted={:?} primary={:?} state={:?} lazy={:?}",
-                    cat_names(hit),
-                    obs.out,
-                    obs.errs,
-                    obs.chk_out,
-                    obs.chk_errs,
-                    obs.st,
-                    obs.panic,
-                    obs.contract,
-                    obs.lazy,
-                    m.output,
-                    m.emitted,
-                    m.primary,
-                    m.final_state,
-                    lazy_model
-                );
-                record(acc, job, hit, g, toks, detail, explained_by);
-            }
+            judge(job, kind, g, toks, &m, obs, bad_sp, bad_sl, content_mask, acc);
         }
         drop(p);
         gi += job.stride;
+    }
+}
+
+/// compare one normalised observation with the model's outcome, update counters, record mismatches
+#[allow(clippy::too_many_arguments)]
+pub fn judge(job: &Job, kind: EK, g: &G, toks: &[Tok], m: &Outcome, obs: RawObs, bad_sp: u32, bad_sl: u32, content_mask: u32, acc: &mut Acc) {
+    let mut mask = compare(kind, &obs, &m, toks.len());
+    if bad_sp > 0 {
+        mask |= MAL;
+    }
+    if bad_sl > 0 {
+        mask |= ZCP;
+    }
+    let mut lazy_model = None;
+    if let Some((lo, _)) = &obs.lazy {
+        let lm = sem::parse_lazy(g, toks, Sw::NONE, job.probes).map(|(_, v)| v);
+        if *lo != lm {
+            mask |= LAZ;
+        }
+        lazy_model = Some(lm);
+    }
+    if obs.panic.is_some() {
+        acc.panics += 1;
+    }
+    if m.output.is_some() {
+        acc.accepted += 1;
+        if !m.emitted.is_empty() {
+            acc.with_emissions += 1;
+        }
+    } else {
+        acc.rejected += 1;
+    }
+    if acc.distinct_outcomes.len() < 100_000 {
+        acc.distinct_outcomes.insert(hash_outcome(&m));
+    }
+    if acc.samples.len() < 6 && (acc.cases % 9973 == 1 || (acc.samples.len() < 2 && m.output.is_some() && !toks.is_empty())) {
+        acc.samples.push(format!(
+            "{} on {:?} [{}/{}] -> model {} ; impl agrees={}",
+            g,
+            toks.iter().collect::<String>(),
+            job.kind_name,
+            job.cfg_name,
+            match &m.output {
+                Some(v) => format!("Ok({:?}) emitted={}", v, m.emitted.len()),
+                None => format!("Err({:?})", m.primary.as_ref().map(|a| (a.span, a.found, &a.exp, &a.custom))),
+            },
+            mask == 0
+        ));
+    }
+    let hit = mask & job.alarm & content_mask;
+    if hit != 0 {
+        let explained_by = classify(g, toks, job.probes, job.known, kind, &obs, job.alarm & !LAZ, content_mask);
+        let detail = format!(
+            "categories={:?}\n  impl : out={:?} errs={:?} check=({}, {:?}) state={:?} panic={:?} contract={:?} lazy={:?}\n  model: out={:?} emitted={:?} primary={:?} state={:?} lazy={:?}",
+            cat_names(hit),
+            obs.out,
+            obs.errs,
+            obs.chk_out,
+            obs.chk_errs,
+            obs.st,
+            obs.panic,
+            obs.contract,
+            obs.lazy,
+            m.output,
+            m.emitted,
+            m.primary,
+            m.final_state,
+            lazy_model
+        );
+        record(acc, job, hit, g, toks, detail, explained_by);
     }
 }
 
@@ -851,6 +868,10 @@ pub fn run_str<C: for<'x> Cfg<'x, &'x str>>(job: &Job, mb: bool, acc: &mut Acc) 
     MB.with(|m| m.set(mb));
     let bufs: Vec<String> = job.inputs.iter().map(|t| t.iter().map(|c| if mb { render(*c) } else { *c }).collect()).collect();
     let tables: Vec<Vec<usize>> = bufs.iter().map(|s| byte_table(s)).collect();
+    if let Some(fns) = job.static_cases {
+        assert!(!mb, "static cases are ASCII only");
+        return run_static(job, fns, &bufs, &tables, acc);
+    }
     run_generic::<&str, C>(
         job,
         &|i| bufs[i].as_str(),
@@ -1092,6 +1113,36 @@ pub fn run_bytes<C: for<'x> Cfg<'x, bytes::Bytes>>(job: &Job, acc: &mut Acc) {
         &ident,
         acc,
     );
+}
+
+/// statically typed parsers: same judging as the boxed interpreter, the observation comes from generated code
+fn run_static(job: &Job, fns: &[crate::stat::CaseFn], bufs: &[String], tables: &[Vec<usize>], acc: &mut Acc) {
+    let mut gi = job.first;
+    while gi < job.grammars.len() {
+        if job.skip.contains(&gi) {
+            gi += job.stride;
+            continue;
+        }
+        let g = &job.grammars[gi];
+        (job.progress)(gi);
+        let has_not = job.skip_not_content && g.contains_not();
+        let content_mask = if has_not { !(PSP | PFO | PEX | PCX | EMC) } else { !0 };
+        for (ii, toks) in job.inputs.iter().enumerate() {
+            acc.cases += 1;
+            let (m, st) = sem::parse(g, toks, Sw::NONE, job.probes);
+            acc.stats.add(&st);
+            if m.unspecified {
+                acc.unspecified += 1;
+                continue;
+            }
+            BUF.with(|b| b.set((bufs[ii].as_ptr() as usize, bufs[ii].len())));
+            let mut obs = (fns[gi])(bufs[ii].as_str(), job.lazy);
+            let nf = |s: (usize, usize), _off: bool| from_table(&tables[ii], s);
+            let (bad_sp, bad_sl) = normalise_obs(&mut obs, &nf, &ident);
+            judge(job, EK::Rich, g, toks, &m, obs, bad_sp, bad_sl, content_mask, acc);
+        }
+        gi += job.stride;
+    }
 }
 
 // ---- small helpers for the other engines -------------------------------------------------------------------
